@@ -8,7 +8,7 @@ dynamic-table capacity 0, hand-typed Appendix A, strict RFC 7541 strings).
 The theorems about byte strings rest on the C15 theorems (prefixed integers, Huffman codec,
 string literals); they take them as the explicit hypothesis `C15Facts`, whose fields are the
 statements of `H3.Props.C15` verbatim (discharge: `⟨C15_prefix_int_roundtrip,
-C15_prefix_int_ok_sound, C15_huffman_roundtrip, C15_string_literal_roundtrip,
+C15_prefix_int_ok_sound, C15_huffman_roundtrip, C15_string_literal_encode, C15_string_literal_roundtrip,
 C15_huffman_accepts_exactly_partial⟩`). -/
 namespace H3.Props.C11
 open H3.Qpack H3.Qpack.Lemmas
@@ -68,11 +68,13 @@ example : StaticTable.findName [58, 115, 116, 97, 116, 117, 115] = some 24 := by
 example : StaticTable.get 99 = none := by decide +kernel
 
 /-- Every field section h3 encodes — any field list over all byte values, any lengths (the
-    hypothesis `Encodable` is: octets, Huffman codings shorter than 2^63) — does not panic, starts
-    with the prefix `00 00`, consists of octets, and is decoded by the independent RFC 9204 decoder
-    to exactly the input list, in order, through static-indexed, static-name-reference and literal
-    lines only. -/
-theorem C11_encode_then_rfc_decode (h15 : C15Facts) (fs : List Field) (hfs : ∀ f ∈ fs, Encodable f) :
+    hypothesis `Writable` is: octets, Huffman codings shorter than 2^63, what fits a `Vec`) — does not
+    panic, starts with the prefix `00 00`, consists of octets, and is decoded by the independent RFC 9204
+    decoder to exactly the input list, in order, through static-indexed, static-name-reference and
+    literal lines only.  (h3's OWN decoder reads it back when, moreover, every Huffman coding is shorter
+    than 2^29 − 2 octets — `Encodable`, `C10_own_encoding_exact` — and refuses it otherwise:
+    `C15_string_literal_beyond_bound`, the bound of the repair of D-06u.) -/
+theorem C11_encode_then_rfc_decode (h15 : C15Facts) (fs : List Field) (hfs : ∀ f ∈ fs, Writable f) :
     encodeStateless? fs = some (encodeStateless fs) ∧
     Spec.Qpack.specDecode (encodeStateless fs).1 = .ok (pairs fs) ∧
     (encodeStateless fs).1.take 2 = [0, 0] ∧
